@@ -196,6 +196,12 @@ type target struct {
 
 // classOf groups table rows into input classes.
 var classOf = map[string]string{
+	"struct-inline-interface-holding-slice":        "inline-value-in-interface",
+	"struct-inline-interface-holding-array":        "inline-value-in-interface",
+	"struct-inline-interface-holding-map":          "inline-value-in-interface",
+	"struct-inline-interface-holding-struct":       "inline-value-in-interface",
+	"struct-inline-pointer-to-slice-set":           "inline-pointer-to-slice",
+	"struct-inline-nil-pointer-to-slice":           "inline-pointer-to-slice",
 	"map-of-pointer-to-pointer-to-slice":           "pointer-to-pointer-element",
 	"map-of-pointer-to-pointer-to-int":             "pointer-to-pointer-element",
 	"map-of-pointer-to-pointer-to-struct":          "pointer-to-pointer-element",
@@ -658,6 +664,34 @@ func buildTargets() []target {
 		{label: "struct-inline-slice", mk: zeroPtr(struct {
 			A []interface{} `config:",inline"`
 		}{})},
+		{label: "struct-inline-pointer-to-slice-set", mk: func() interface{} {
+			return &struct {
+				A *[]int `config:",inline"`
+			}{&[]int{9, 9, 9, 9}}
+		}},
+		{label: "struct-inline-nil-pointer-to-slice", mk: zeroPtr(struct {
+			A *[]int `config:",inline"`
+		}{})},
+		{label: "struct-inline-interface-holding-slice", mk: func() interface{} {
+			return &struct {
+				A interface{} `config:",inline"`
+			}{[]int{9}}
+		}},
+		{label: "struct-inline-interface-holding-array", mk: func() interface{} {
+			return &struct {
+				A interface{} `config:",inline"`
+			}{[3]int{9, 9, 9}}
+		}},
+		{label: "struct-inline-interface-holding-map", mk: func() interface{} {
+			return &struct {
+				A interface{} `config:",inline"`
+			}{map[string]interface{}{"v": 1}}
+		}},
+		{label: "struct-inline-interface-holding-struct", mk: func() interface{} {
+			return &struct {
+				A interface{} `config:",inline"`
+			}{sV{1}}
+		}},
 		{label: "struct-inline-array", mk: zeroPtr(struct {
 			A [2]int `config:",inline"`
 		}{})},
